@@ -7,7 +7,9 @@
     [finish_transaction] / [update_working_copy] (l.2325-2410, 3382-3400: checkout old -> new,
     recorded operation := new operation), [recover_stale_working_copy_impl] (l.625-765:
     snapshot on the working copy's own operation, merge of the divergent operations,
-    [update_stale_working_copy], second snapshot), [--ignore-working-copy]
+    [update_stale_working_copy], second snapshot; l.750-762 and lib/src/working_copy.rs
+    [create_and_check_out_recovery_commit] when the working copy's operation is lost),
+    cli/src/commands/operation/abandon.rs, util/gc.rs, [--ignore-working-copy]
     (may_snapshot_working_copy = may_update_working_copy = false).
 
     Abstraction: a tree is a number (equal numbers = equal file states; the harness interns
@@ -25,6 +27,7 @@ Record state := mk_state {
   s_ops : list opr;             (* operation store, append-only; index = operation *)
   s_heads : list nat;           (* operation heads *)
   s_ws : list (N * wsst);       (* workspaces *)
+  s_lost : list nat;            (* operations that can no longer be read (abandoned and collected) *)
 }.
 
 Definition opgraph (ops : list opr) : graph := map o_par ops.
@@ -65,6 +68,10 @@ Inductive kind :=
 | KUpdateStale           (* jj workspace update-stale *)
 | KWorkspaceAdd (nw : N) (* jj workspace add *)
 | KAtOp (x : nat)        (* any command with --at-op=x (x not the head symbol) *)
+| KOpAbandon             (* jj op abandon ..@- : the head operation is re-created on the root *)
+| KGc                    (* jj util gc --expire=now: unreachable operations become unreadable *)
+| KRecoverThen           (* a command with snapshot.auto-update-stale whose working copy's
+                            operation is lost: recovery commit, snapshot, then the command *)
 | KMerge                 (* first half of a command that finds several operation heads:
                             the "reconcile divergent operations" operation *)
 | KEdit.                 (* not a command: the user edits files of the workspace *)
@@ -72,7 +79,8 @@ Inductive kind :=
 Record event := mk_event {
   e_ws : N;
   e_kind : kind;
-  e_status : N;                   (* 0 ok; 1 stale / sibling working-copy error; 2 other error *)
+  e_status : N;                   (* 0 ok; 1 stale / sibling / unreadable-operation error;
+                                     2 other error; 3 panic or internal error *)
   e_ops : list opr;               (* operations added, numbered from [length s_ops] *)
   e_heads : list nat;             (* operation heads afterwards *)
   e_ws_post : list (N * wsst);    (* all workspaces afterwards *)
@@ -137,6 +145,12 @@ Definition after_body_nosnap (allops : list opr) (cur bidx : nat) (body : list o
 Definition last_op (cur bidx : nat) (body : list opr) : nat :=
   match body with [] => cur | _ => bidx + length body - 1 end.
 
+(** How many of the command's first operations may precede its own work: the snapshot
+    operation, and before it the recovery operation when the working copy's operation is
+    lost. *)
+Definition early_n (ev : event) : nat :=
+  match e_kind ev with KUpdateStale | KRecoverThen => 2 | _ => 1 end.
+
 Definition heads_after (st : state) (ev : event) (last : nat) : list nat :=
   if is_nil (e_ops ev) then s_heads st else [last].
 
@@ -189,6 +203,10 @@ Definition exp_present (st : state) (ev : event) (h : nat) (ws : wsst) : option 
   let w := e_ws ev in
   let d := w_disk ws in
   let allops := ops ++ e_ops ev in
+  if memn (w_op ws) (s_lost st) then
+    (* [handle_stale_working_copy]: the working copy's operation cannot be read *)
+    (if N.eqb (e_status ev) 1 && is_nil (e_ops ev) then Some ([h], None, []) else None)
+  else
   match check_stale ops ws h w with
   | FStale | FSibling =>
       (* the command aborts before touching anything *)
@@ -216,12 +234,44 @@ Definition exp_present (st : state) (ev : event) (h : nat) (ws : wsst) : option 
 (** [jj workspace update-stale] ([recover_stale_working_copy_impl]): snapshot on the working
     copy's own operation, then reload: if that leaves several heads (the snapshot operation next
     to the others) they are merged; then the desired commit is checked out if needed. *)
+(** The working copy's operation is lost ([recover_stale_working_copy_impl] l.750-762,
+    lib/src/working_copy.rs [create_and_check_out_recovery_commit]): a recovery commit is
+    created on top of the workspace's commit in the head view (operation [R], same tree), the
+    working-copy state is re-pointed at it without touching the disk, and the snapshot that
+    follows records everything that is on disk. *)
+Definition exp_recover (st : state) (ev : event) (h : nat) (ws : wsst) (with_body : bool)
+  : option res :=
+  let ops := s_ops st in
+  let w := e_ws ev in
+  let d := w_disk ws in
+  let allops := ops ++ e_ops ev in
+  match e_ops ev, tree_of ops h w with
+  | R :: rest, Some th =>
+      if list_eqb Nat.eqb (o_par R) [h] && option_eqb N.eqb (lookupN w (o_wcs R)) (Some th)
+         && N.eqb (e_status ev) 0
+      then
+        match snapshot_phase (ops ++ [R]) (length ops) w d rest with
+        | Some (cur, body, bidx) =>
+            if with_body then
+              (if chain_from cur bidx body
+               then Some ([last_op cur bidx body], Some (after_body allops cur bidx body w d), [])
+               else None)
+            else if is_nil body then Some ([cur], Some (mk_ws d d cur), []) else None
+        | None => None
+        end
+      else None
+  | _, _ => None
+  end.
+
 Definition exp_update_stale (st : state) (ev : event) (ws : wsst) : option res :=
   let ops := s_ops st in
   let w := e_ws ev in
   let d := w_disk ws in
   let allops := ops ++ e_ops ev in
   let o := w_op ws in
+  if memn o (s_lost st) then
+    match s_heads st with [h] => exp_recover st ev h ws false | _ => None end
+  else
   match snapshot_phase ops o w d (e_ops ev) with
   | None => None
   | Some (cur, rest, idx) =>
@@ -286,6 +336,31 @@ Definition expected_res (st : state) (ev : event) : option res :=
                    None, [])
         else None
     | KUpdateStale => exp_update_stale st ev ws
+    | KRecoverThen =>
+        match s_heads st with
+        | [h] => if memn (w_op ws) (s_lost st) then exp_recover st ev h ws true else None
+        | _ => None
+        end
+    | KOpAbandon =>
+        (* cli/src/commands/operation/abandon.rs: no snapshot; the head is re-created on the
+           root operation with the same view; the invoking workspace's recorded operation is
+           remapped if it was the head *)
+        match s_heads st with
+        | [h] =>
+            match e_ops ev with
+            | [] => Some ([h], None, [])
+            | [H] =>
+                if list_eqb Nat.eqb (o_par H) [0]
+                   && list_eqb (fun p q => N.eqb (fst p) (fst q) && N.eqb (snd p) (snd q)) (o_wcs H)
+                        (match nth_error ops h with Some op => o_wcs op | None => [] end)
+                then Some ([length ops],
+                           if Nat.eqb (w_op ws) h
+                           then Some (mk_ws (w_disk ws) (w_tree ws) (length ops)) else None, [])
+                else None
+            | _ => None
+            end
+        | _ => None
+        end
     | KIgnoreWc =>
         (* neither snapshot nor checkout *)
         match s_heads st with
@@ -294,7 +369,7 @@ Definition expected_res (st : state) (ev : event) : option res :=
             then Some (heads_after st ev (last_op h (length ops) (e_ops ev)), None, []) else None
         | _ => None
         end
-    | KNormal | KWorkspaceAdd _ =>
+    | KNormal | KGc | KWorkspaceAdd _ =>
         match s_heads st with
         | [h] =>
             match tree_of ops h w with
@@ -331,16 +406,31 @@ Definition early_error (st : state) (ev : event) : bool :=
   && match e_kind ev with KEdit => false | _ => true end
   && list_eqb Nat.eqb (e_heads ev) (s_heads st) && wsl_eqb (e_ws_post ev) (s_ws st).
 
+(** After a successful [jj util gc --expire=now] every operation that is not an ancestor of a
+    head is unreadable. *)
+Definition lost_after (st : state) (ev : event) : list nat :=
+  match e_kind ev with
+  | KGc =>
+      if N.eqb (e_status ev) 0 then
+        let allops := s_ops st ++ e_ops ev in
+        filter (fun i => negb (existsb (fun h => is_anc (opgraph allops) i h) (e_heads ev)))
+               (seq 0 (length allops))
+      else s_lost st
+  | _ => s_lost st
+  end.
+
 Definition accept (st : state) (ev : event) : option state :=
   let ok :=
-    early_error st ev
+    negb (N.eqb (e_status ev) 3) &&
+    (early_error st ev
     || match expected st ev with
        | Some (hs, wsl) =>
            wf_from (map o_par (e_ops ev)) (length (s_ops st))
            && list_eqb Nat.eqb (e_heads ev) hs && wsl_eqb (e_ws_post ev) wsl
        | None => false
-       end in
-  if ok then Some (mk_state (s_ops st ++ e_ops ev) (e_heads ev) (e_ws_post ev)) else None.
+       end) in
+  if ok then Some (mk_state (s_ops st ++ e_ops ev) (e_heads ev) (e_ws_post ev) (lost_after st ev))
+  else None.
 
 Fixpoint run (st : state) (evs : list event) : option state :=
   match evs with
@@ -364,6 +454,13 @@ Definition absent_from_view (st : state) (w : N) : bool :=
   | _ => false
   end.
 
+(** Commands that snapshot the invoking workspace. *)
+Definition snap_kind (k : kind) : bool :=
+  match k with
+  | KNormal | KGc | KRecoverThen | KWorkspaceAdd _ | KUpdateStale => true
+  | _ => false
+  end.
+
 (** One event: every workspace whose disk changed during a command, and the invoking workspace
     of every successful command that snapshots, had its disk state recorded by an operation
     that exists when the command ends.  [st] is the observed state before the event. *)
@@ -382,18 +479,20 @@ Definition event_okb (strict : bool) (rec : list (nat * N * N)) (st : state) (ev
                          end in
           let snapshotted := N.eqb w (e_ws ev) && N.eqb (e_status ev) 0
                              && negb (absent_from_view st w)
-                             && match k with KNormal | KWorkspaceAdd _ | KUpdateStale => true | _ => false end in
+                             && snap_kind k in
           negb (changed || snapshotted)
           || recorded rec (length (s_ops st) + length (e_ops ev)) w d
           || (negb strict && N.eqb w (e_ws ev) && absent_from_view st w)
         end) (map fst (s_ws st))
+      (* a panic or internal error of the command is never acceptable *)
+      && negb (N.eqb (e_status ev) 3)
   end.
 
 Fixpoint run_okb (strict : bool) (rec : list (nat * N * N)) (st : state) (evs : list event) : bool :=
   match evs with
   | [] => true
   | ev :: t => event_okb strict rec st ev
-               && run_okb strict rec (mk_state (s_ops st ++ e_ops ev) (e_heads ev) (e_ws_post ev)) t
+               && run_okb strict rec (mk_state (s_ops st ++ e_ops ev) (e_heads ev) (e_ws_post ev) (lost_after st ev)) t
   end.
 
 (** * Correspondence case: one CLI session *)
